@@ -314,6 +314,18 @@ class Runner:
             script.append('gcc -std=%s $OPT -w %s %s %s -c %s -o $T/u%d.o || exit 99' % (q.std, ' '.join(san), inc, ' '.join(dflags(dd)), self.src_path(u.path), k))
             objs.append('$T/u%d.o' % k)
         for k, l in enumerate(q.ll):
+            if q.replay == 'ir':
+                # no way to run the real object code under the counterexample's environment (e.g. an arbitrary CPUID
+                # table): the replay executes the IR-derived C (differentially validated against the real build on
+                # every run) natively instead, and says so
+                try:
+                    _, csrc, info = self.build_ll(l, q)
+                except BuildError:
+                    return 'error', 'cannot build translated unit'
+                shutil.copy(csrc, os.path.join(outdir, 'll%d.c' % k))
+                script.append('gcc -std=gnu99 $OPT -w %s -I%s -c $D/ll%d.c -o $T/l%d.o || exit 99' % (' '.join(san), os.path.join(VERIF, 'harness'), k, k))
+                objs.append('$T/l%d.o' % k)
+                continue
             dd = dict(cfg_defs(q.cfg)); dd.update(l.defs); dd['VH_SHIM'] = 1
             # the real file, compiled by gcc with the shipped flags, plus a shim that exposes the
             # erased ll_ signatures used by the harness
@@ -331,10 +343,13 @@ class Runner:
         script.append('gcc -std=%s $OPT -w %s %s -I$D %s -c %s -o $T/h.o || exit 99' % (q.std, ' '.join(san), inc, ' '.join(dflags(d)), hsrc))
         link = 'g++' if any(l.lang != 'c' for l in q.ll) else 'gcc'
         # the rest of the real library, as an archive: members are pulled in only for symbols still undefined
-        script.append('rm -f $T/libskinny.a; for f in %s/src/*.c; do b=$(basename $f .c); fl=-msse2; case $b in *vec256) fl=-mavx2;; esac; '
+        script.append('rm -f $T/libskinny.a; for f in %s/src/*.c; do b=$(basename $f .c); fl=-msse2; case $b in *vec256) fl=-mavx2;; skinny-internal) fl="-msse2 -mavx2";; esac; '
                       'gcc -std=%s $OPT -w %s $fl %s %s -c $f -o $T/lib_$b.o & done; wait; ar rc $T/libskinny.a $T/lib_*.o'
                       % (REPO, q.std, ' '.join(san), inc, ' '.join(dflags(cfg_defs(q.cfg)))))
-        script.append('%s %s $T/h.o %s $T/libskinny.a -o $T/replay || exit 99' % (link, ' '.join(san), ' '.join(objs)))
+        if q.replay == 'ir':
+            script.append('gcc -std=gnu99 $OPT -w -c %s -o $T/nd.o || exit 99' % os.path.join(VERIF, 'harness', 'replay_nondet.c'))
+            objs.append('$T/nd.o')
+        script.append('%s %s %s $T/h.o %s $T/libskinny.a -o $T/replay || exit 99' % (link, ' '.join(san), '-no-pie -Wl,--unresolved-symbols=ignore-all' if q.replay == 'ir' else '', ' '.join(objs)))
         script.append('echo "== real code built with $OPT, inputs from the solver"; MALLOC_PERTURB_=165 $T/replay; rc=$?')
         script.append('if [ $rc -ne 0 ] && [ $rc -ne 3 ]; then worst=$rc; break; fi')
         script.append('for S in 1 2 3 4 5 6 7 8 9 10 11 12 13 14 15 16 17 18 19 20 21 22 23 24; do')
